@@ -53,6 +53,9 @@ def run(rep: core.Report):
     _r14g(rep)
     _r14h(rep)
     _r14i(rep)
+    from rules import shared_bcast
+
+    shared_bcast.run(rep, "R14k", [r for r in ["phonopy/phonon/band_structure.py", "phonopy/phonon/mesh.py", "phonopy/phonon/qpoints.py", "phonopy/phonon/degeneracy.py"] if (core.REPO / r).is_file()])
     from rules import shared_forward
 
     shared_forward.run(rep, "R14j", "phonopy/api_phonopy.py", "Phonopy", 60)
